@@ -453,6 +453,17 @@ func genHttpConv(r *Rand, tier string, emit func(sx.Sx)) {
 		emit(sx.L(sx.L(sx.A("ex"), req, resp)))
 		emit(sx.L(first, sx.L(sx.A("ex"), req, resp)))
 	}
+	// an upgrade the server declines with an ordinary final response: the connection stays on HTTP/1.1 and goes on
+	for _, st := range []int{403, 426, 200} {
+		hs := sx.L(sx.L(sx.S("Host"), sx.S("host.example")), sx.L(sx.S("Connection"), sx.S("Upgrade")), sx.L(sx.S("Upgrade"), sx.S("websocket")))
+		req := sx.L(sx.A("req"), sx.S("GET"), sx.S("/chat"), sx.N(1), hs, sx.A("none"), sx.B(nil))
+		resp := sx.L(sx.A("resp"), sx.N(st), sx.S("Declined"), sx.N(1), sx.L(), sx.A("cl"), sx.B([]byte("no")))
+		mk := func(path string, status int) sx.Sx {
+			return sx.L(sx.A("ex"), sx.L(sx.A("req"), sx.S("GET"), sx.S(path), sx.N(1), sx.L(sx.L(sx.S("Host"), sx.S("host.example"))), sx.A("none"), sx.B(nil)),
+				sx.L(sx.A("resp"), sx.N(status), sx.S("OK"), sx.N(1), sx.L(), sx.A("cl"), sx.B([]byte("ok"))))
+		}
+		emit(sx.L(mk("/index.html", 200), sx.L(sx.A("ex"), req, resp), mk("/api/cart?id=7", 200), mk("/api/order", 201)))
+	}
 	{
 		hs := sx.L(sx.L(sx.S("Host"), sx.S("host.example")), sx.L(sx.S("Expect"), sx.S("100-continue")))
 		req := sx.L(sx.A("req"), sx.S("POST"), sx.S("/up"), sx.N(1), hs, sx.A("cl"), sx.B([]byte("payload")))
@@ -554,7 +565,7 @@ func genDnsEntries(r *Rand, tier string, emit func(sx.Sx)) {
 		}
 		qs := []interface{}{}
 		for j := 0; j < nq; j++ {
-			qs = append(qs, map[string]interface{}{"name": []string{"example.com.", "a \"b\".test.", "x.y.z."}[r.Intn(3)], "type": types[r.Intn(len(types))], "class": "IN"})
+			qs = append(qs, map[string]interface{}{"name": []string{"example.com.", "a \"b\".test.", "x.y.z.", "xn--bcher-kva.example.", "mail.xn--p1ai.", "xn--bcher-kva.example", "_sip._tcp.Example.COM.", "bücher.example.", "XN--BCHER-KVA.example.", "xn--.example.", "a..b."}[r.Intn(11)], "type": types[r.Intn(len(types))], "class": "IN"})
 		}
 		req := map[string]interface{}{"opCode": []string{"Query", "Status", "Notify", "Update"}[r.Intn(4)], "questions": qs}
 		lists := func() []interface{} {
